@@ -17,6 +17,7 @@ type WriteCounter struct {
 	armed   bool
 	n       int
 	crashAt int // crash right after the crashAt-th write completes (1-based); 0 = never
+	afterLabel string
 	log     []string
 	dead    bool
 }
@@ -24,7 +25,14 @@ type WriteCounter struct {
 func (w *WriteCounter) Arm(crashAt int) {
 	w.mu.Lock()
 	defer w.mu.Unlock()
-	w.armed, w.n, w.crashAt, w.log = true, 0, crashAt, nil
+	w.armed, w.n, w.crashAt, w.afterLabel, w.log = true, 0, crashAt, "", nil
+}
+
+// ArmLabel arms the counter to die after the k-th write (k > 0) or after the first write whose label starts with prefix.
+func (w *WriteCounter) ArmLabel(k int, prefix string) {
+	w.mu.Lock()
+	defer w.mu.Unlock()
+	w.armed, w.n, w.crashAt, w.afterLabel, w.log = true, 0, k, prefix, nil
 }
 
 func (w *WriteCounter) Disarm() (int, []string) {
@@ -52,7 +60,7 @@ func (w *WriteCounter) after(label string) {
 	}
 	w.n++
 	w.log = append(w.log, label)
-	if w.crashAt != 0 && w.n == w.crashAt {
+	if (w.crashAt != 0 && w.n == w.crashAt) || (w.afterLabel != "" && len(label) >= len(w.afterLabel) && label[:len(w.afterLabel)] == w.afterLabel) {
 		w.dead = true
 		n := w.n
 		w.mu.Unlock()
@@ -64,7 +72,7 @@ func (w *WriteCounter) after(label string) {
 func (w *WriteCounter) Revive() {
 	w.mu.Lock()
 	defer w.mu.Unlock()
-	w.dead, w.armed, w.crashAt = false, false, 0
+	w.dead, w.armed, w.crashAt, w.afterLabel = false, false, 0, ""
 }
 
 // CrashDB wraps a database, numbering every write (an atomic batch counts as one write).
